@@ -196,6 +196,7 @@ def run(rep):
     # Channel::close panics (unreachable!()) when the named end is already Closed. A client reaches it through
     # CloseChannelEnd -> check_close == Ok -> remove_channel_end -> close: check_close must not answer Ok for a Closed end.
     r6(rep, prog, M)
+    r6_premises(rep, prog)
     r8(rep, prog, M)
 
     # ---- R7 premises of the internal-key expect()s -------------------------------------------------------
@@ -250,6 +251,22 @@ def r6(rep, prog, M):
     rce = [c for c in ch.calls if c.name == "remove_channel_end"]
     ok = bool(rce) and all(broker.has_guard(ch, c.bb, r"^True=PartialEq::eq\(Channel::check_close\(.*\)\.0, CloseChannelEndResult::Ok\(\)\)$") for c in rce)
     rep.check(ok, "C11-R6", ch.def_, "close-only-after-check", "the CloseChannelEnd handler must reach Channel::close only when check_close answered Ok", detail={"sites": len(rce)})
+
+
+def r6_premises(rep, prog):
+    import os
+    import tomllib
+    tab = tomllib.load(open(os.path.join(engine.VERIF, "tables", "c11.toml"), "rb"))
+    for pr in tab["premise"]:
+        b = prog.body(pr["fn"])
+        if b is None:
+            rep.fail("C11-R6", pr["fn"], "premise-fn", "function listed in tables/c11.toml not found")
+            continue
+        pcs = [c for c in b.calls if re.search(r"core::panicking::", c.callee or "")]
+        rep.check(bool(pcs), "C11-R6", b.def_, "premise-sites", "no panicking check left in a function listed in tables/c11.toml (the entry is stale)", detail={})
+        for c in pcs:
+            ok = any(re.search(pr["guard"], g) for g in b.guard_strings(c.bb))
+            rep.check(ok, "C11-R6", b.def_, "client-value-premise", "a panicking check in %s is reachable without its premise %s on the client-supplied value: %s" % (b.name, pr["guard"], pr["reason"]), line=c.line, detail={"guards": b.guard_strings(c.bb)[-6:]})
 
 
 def r8(rep, prog, M):
